@@ -34,7 +34,7 @@ CHECKS = {
    text="Seeded search over generated driver programs (compiled by the real pipeline) and operation histories. Each history runs on fresh instances with the plain allocator and under an injected allocator fault mode; a free of a non-live block, a HeapAlloc result that is not zero, a write to quarantined memory, or any step whose result differs between the two runs is a violation. This is the property's own formulation (output unchanged when freed memory is overwritten on release). Evidence, not proof.",
    note="programs are the structured drivers of harness/wagen (typed slots, ~100-170 operations each), not arbitrary programs; an identical trap in both modes is harness trouble (exit 2), not a C11 violation; trusts Wat2Wasm and wazero to execute the rewritten module", ref="DESIGN.md section 4 C11"),
  "C12": dict(level="exploration", technique="conservation check over the simulated allocator's malloc/free history: seeded acyclic loop bodies of generated driver programs are iterated 8..1024 times by exported calls; live block count and bytes after every iteration (host-side accounting through the WAT allocator seam) must be constant after warm-up and the real allocator's heap extent must stop growing; shrunk replayable tapes",
-   text="Seeded search over generated drivers and loop bodies; the oracle is exact equality of live blocks and live bytes at the end of every iteration (the reachable state is identical by construction) plus a no-persistent-growth check of the real heap extent. No fault or schedule is injected: this property has no such dimension, the simulator contributes the observation point and the seeded histories. Evidence, not proof.",
+   text="Seeded search over generated drivers and loop bodies (and, one run in four, loop bodies of map operations on the C13 map drivers of every key kind followed by 'discard every map'); the oracle is exact equality of live blocks and live bytes at the end of every iteration (the reachable state is identical by construction) plus a no-persistent-growth check of the real heap extent. No fault or schedule is injected: this property has no such dimension, the simulator contributes the observation point and the seeded histories. Evidence, not proof.",
    note="loop bodies are sequences of driver operations; acyclicity is guaranteed by the generator's level order and rank guard, not checked at run time", ref="DESIGN.md section 4 C12"),
  "C13": dict(level="exploration", technique="deterministic simulation of the allocator under compiled Wa map drivers: generated drivers per key kind x value kind compiled by the real pipeline, seeded operation histories checked step by step against a Go map reference model, executed under plain and under seeded allocator fault modes (poison on free, dirty fresh memory, immediate reuse, quarantine, scattered placement) with double-free / zeroing / write-after-free monitors; shrunk replayable tapes",
    text="Model-based seeded search: every put/overwrite/get/comma-ok/delete/len/range/alias result of the real runtime map (9 key kinds x 4 value kinds) is compared with a Go map model, on histories with ascending/descending/delete-in-order/churn phases and key pools from 2 to 2000, first on the plain allocator and again under an injected allocator fault mode that makes stale tree-node pointers visible. Evidence, not proof.",
@@ -49,7 +49,7 @@ CHECKS = {
    text="Every generated stream is read back fault-free, with all reads bounded to 1/2/3/7 bytes, under every single split position and every cut offset (complete per stream up to the size limit), and under seeded multi-fault schedules. Decoded messages must have the written dynamic type and marshal to identical JSON; after a cut the reader must return the completely delivered messages and then an error, never a message that was not written. The constructor tables are also checked against the schema naming convention.",
    note="equality is JSON-level (encoding/json on both sides) plus dynamic type; protocol defaults pre-set by a constructor are treated as the meaning of an omitted field; streams above the limit are only covered by the seeded schedules", ref="DESIGN.md section 4 C26"),
  "C27": dict(level="exploration", technique="deterministic simulation of Go map iteration order inside the compiler: every range-over-map on the compile path (75 sites in 49 files, AST-located, text-spliced copies injected with go build -overlay) yields its keys in an order chosen by the seeded schedule (reverse, rotate, swap, shuffle, per site or everywhere); WAT and wasm hashes compared between canonical and permuted orders, between repeats in one process and across worker processes; tape shrinking isolates the responsible range site",
-   text="Seeded search over programs of the repository's corpus, configurations and map-order schedules. Any permutation is a legal Go execution, so a hash difference between the canonical and a permuted order is a real nondeterminism of the compiler; the minimised replay names the source position of the range statement whose order reaches the output. Repeat compiles in one process and baselines across 16 processes cover state leaking between compiles and sources outside the seam. Evidence, not proof.",
+   text="Seeded search over programs of the repository's corpus, configurations and map-order schedules. Any permutation is a legal Go execution, so a hash difference between the canonical and a permuted order is a real nondeterminism of the compiler; the minimised replay names the source position of the range statement whose order reaches the output. A tape-drawn history probe (compile P, Q, P with the canonical order), repeat compiles in one process and baselines across 16 processes cover state leaking between compiles and sources outside the seam. Evidence, not proof.",
    note="only map iteration order is behind the seam; addresses, goroutines and time are covered by repeat/cross-process comparison only; pointer/interface keys get first-store serial numbers as canonical order (nonreplayable_keys probe must be 0)", ref="DESIGN.md section 4 C27"),
  "C28": dict(level="exploration", technique="deterministic simulation of concurrent API callers: every scenario runs in its own cold OS process under a token scheduler with seeded PCT pre-emption points over ~4600 AST-inserted yield points (every statement touching a package-level variable and every function entry on the API path, 300 rewritten files), simulator-aware Mutex/RWMutex/Once, canonical map order for exact replay, and a vector-clock happens-before monitor over every map access; oracle = each call's result equals its solo result in a cold process; shrunk replayable tapes",
    text="Seeded search over caller/call mixes (build, run, format, syntax detection on well-typed, ill-typed and unparsable .wa/.wz programs) and pre-emption placements. A call whose result differs from the same call run alone, a panic, a scheduler-detected deadlock, a dead child process, or two happens-before-unordered accesses to one Go map (one a write) by different callers is a violation. The sequential run of each scenario in one process is checked against the solo results as well. Evidence, not proof.",
